@@ -97,6 +97,14 @@ class Clock(object):
     def time(cls):
         return cls.now
 
+    # whichever clock the library reads, it reads the simulated one
+    monotonic = time
+    perf_counter = time
+
+    @classmethod
+    def sleep(cls, seconds):
+        cls.now += seconds
+
 
 SELECT_SLEEP = 0.0        # > 0 in the real-thread tests: an idle poll yields the processor, as a real select() does
 
